@@ -32,6 +32,8 @@ const (
 var (
 	c01FillS = "<i>'" + c01MarkS + "\"&amp;<"
 	c01FillH = template.HTML("<b>'" + c01MarkH + "\"&amp;</b>")
+	// trusted value without a marker: the right operand of string + trusted, where its own form is left open
+	c01TrustedZ = template.HTML("<hr class='z'>&amp;\"")
 )
 
 type c01HTMLer struct{ S string }
@@ -123,12 +125,14 @@ func c01ParseCase(s string) (c01Case, error) {
 }
 
 // value classes while plumbing: S Go string, H template.HTML, X HTMLer struct, W opaque wrapper (result of a
-// user function with a template body: the list of what its block produced) that only generic steps accept.
+// user function with a template body: the list of what its block produced) that only generic steps accept,
+// U a trusted value joined onto a string by + (the statement leaves its form open; generic steps only),
+// G a Go string that carries the string filler (generic steps only, so that raw() is never applied to the filler).
 // A user function that returns its argument keeps the class (if an implementation wraps the result, the
 // class-specific steps after it fail with a render error, which is tagged, not reported).
 type c01Op struct {
 	name string
-	need string // "" generic, "S", "H"
+	need string // "" generic, "S", "H", "*" any class but no fillers next to the payload
 	mult int
 }
 
@@ -144,6 +148,17 @@ var c01Ops = []c01Op{
 	// Go-string only
 	{"catL", "S", 1}, {"catR", "S", 1}, {"catP", "S", 1}, {"ids", "S", 1}, {"strs0", "S", 1}, {"boxs", "S", 1},
 	{"forstrs", "S", 1}, {"maps", "S", 1}, {"raw", "S", 1},
+	// Go string as the LEFT operand of + with a right operand of every other kind: the result is a new Go
+	// string (never trusted), whatever was joined onto it
+	{"catH", "S", 1}, {"catRw", "S", 1}, {"catHf", "S", 1}, {"catHi", "S", 1}, {"catX", "S", 1}, {"catCof", "S", 1},
+	{"catPart", "S", 1}, {"catBlk", "S", 1}, {"catUf", "S", 1}, {"catInt", "S", 1}, {"catFlt", "S", 1}, {"catBool", "S", 1}, {"catArr", "S", 1},
+	// Go string as the RIGHT operand of + under a trusted left operand (a render error today; if it ever
+	// renders, the string part is still a Go string)
+	{"hcat", "S", 1},
+	// the string filler as the left operand, the routed value (any class) as the right operand: the filler
+	// is checked; a trusted payload joined onto a string is left open (class U: payload not checked).
+	// "*": any class, but the fillers do not travel through it (a trusted filler on the right is open too)
+	{"fzcat", "*", 1},
 	// template.HTML only
 	{"idh", "H", 1}, {"htmls0", "H", 1}, {"boxh", "H", 1}, {"forhtmls", "H", 1}, {"maph", "H", 1},
 }
@@ -156,7 +171,7 @@ var c01OpByName = func() map[string]c01Op {
 	return m
 }()
 
-var c01Emits = []string{"tag", "twice", "ifret", "forret", "arr", "ifaces", "strs"} // strs: class S only
+var c01Emits = []string{"tag", "twice", "ifret", "forret", "arr", "ifaces", "strs", "arrapp", "strsapp"} // strs, strsapp: class S only
 
 var c01Kinds = []string{"str", "html", "htmler", "htmlerstr"}
 
@@ -250,6 +265,7 @@ type c01Built struct {
 	partials map[string]string
 	count    int
 	verbatim bool
+	open     bool // the payload's wanted form is left open by the statement (class U); only the fillers are checked
 }
 
 type c01Builder struct {
@@ -258,6 +274,7 @@ type c01Builder struct {
 	count    int
 	bad      string
 	finalCls string
+	open     bool
 }
 
 func (b *c01Builder) emit(e, cls string) string {
@@ -281,6 +298,13 @@ func (b *c01Builder) emit(e, cls string) string {
 			b.bad = "emit strs needs a Go string"
 		}
 		return "<%= strs(" + e + ") %>"
+	case "arrapp": // array + value: the value is appended and the grown array is emitted
+		return "<%= [fh] + " + e + " %>"
+	case "strsapp": // []string + string
+		if cls != "S" {
+			b.bad = "emit strsapp needs a Go string"
+		}
+		return "<%= strs1(fz) + " + e + " %>"
 	}
 	b.bad = "unknown emit " + b.c.Emit
 	return ""
@@ -294,7 +318,7 @@ func (b *c01Builder) restGeneric(i int) bool {
 			return false
 		}
 	}
-	return b.c.Emit != "strs"
+	return b.c.Emit != "strs" && b.c.Emit != "strsapp"
 }
 
 // one selects the helper variant without fillers when the rest of the route is class-specific.
@@ -317,7 +341,7 @@ func (b *c01Builder) build(i int, e, cls string) string {
 		b.bad = "unknown op " + b.c.Ops[i]
 		return ""
 	}
-	if op.need != "" && op.need != cls {
+	if op.need != "" && op.need != "*" && op.need != cls {
 		b.bad = "op " + op.name + " needs class " + op.need + ", value has class " + cls
 		return ""
 	}
@@ -418,6 +442,45 @@ func (b *c01Builder) build(i int, e, cls string) string {
 		return next("maps(" + e + `)["k"]`)
 	case "raw":
 		return b.build(i+1, "raw("+e+")", "H")
+	case "catH":
+		return next("(" + e + " + hz)")
+	case "catRw":
+		return next("(" + e + ` + raw("<br title='r'>&amp;"))`)
+	case "catHf":
+		return next("(" + e + " + gh())")
+	case "catHi":
+		return next("(" + e + " + idi(hz))")
+	case "catX":
+		return next("(" + e + " + hx)")
+	case "catCof":
+		return `<% contentFor("k` + n + `") { %><b class="k">new</b><% } %>` + next("("+e+` + contentOf("k`+n+`"))`)
+	case "catPart":
+		b.partials["q"+n] = `<u title='q'>q&amp;</u>`
+		return next("(" + e + ` + partial("q` + n + `"))`)
+	case "catBlk":
+		return "<% let h" + n + " = blk() { %><s>t</s><% } %>" + next("("+e+" + h"+n+")")
+	case "catUf":
+		return "<% let g" + n + " = fn() { %><s>t</s><% } %>" + next("("+e+" + g"+n+"())")
+	case "catInt":
+		return next("(" + e + " + 7)")
+	case "catFlt":
+		return next("(" + e + " + 1.5)")
+	case "catBool":
+		return next("(" + e + " + true)")
+	case "catArr":
+		return next("(" + e + " + [1, 2])")
+	case "hcat":
+		return b.build(i+1, "(hz + "+e+")", "W")
+	case "fzcat":
+		if cls == "S" {
+			// still a Go string, but it now carries the filler: generic steps only (no raw() after it)
+			return b.build(i+1, "(fz + "+e+")", "G")
+		}
+		if cls != "G" {
+			b.open = true
+			cls = "U"
+		}
+		return b.build(i+1, "(fz + "+e+")", cls)
 	case "idh":
 		return next("idh(" + e + ")")
 	case "htmls0":
@@ -460,7 +523,7 @@ func c01Build(c c01Case) (c01Built, string) {
 			return c01Built{}, "emit twice after a return-style user function is left to C16"
 		}
 	}
-	return c01Built{tmpl: t, partials: b.partials, count: b.count, verbatim: verb}, ""
+	return c01Built{tmpl: t, partials: b.partials, count: b.count, verbatim: verb, open: b.open}, ""
 }
 
 // c01Env builds the Go environment of a case from its kind and payload.
@@ -505,6 +568,9 @@ func c01Env(c c01Case, partials map[string]string) *plush.Context {
 	ctx.Set("gi", func() interface{} { return v })
 	ctx.Set("fz", c01FillS)
 	ctx.Set("fh", c01FillH)
+	ctx.Set("hz", c01TrustedZ)
+	ctx.Set("hx", c01HTMLer{string(c01TrustedZ)})
+	ctx.Set("gh", func() template.HTML { return c01TrustedZ })
 
 	ctx.Set("ids", func(s string) string { return s })
 	ctx.Set("idh", func(h template.HTML) template.HTML { return h })
@@ -639,7 +705,9 @@ func c01Run(c c01Case) c01Verdict {
 	n, good, wrong, ctxt := c01Scan(o.Out, c.Pay, c01Mark, bt.verbatim)
 	v.emitted = n
 	tail := fmt.Sprintf(" (template %s, output %s)", strconv.Quote(bt.tmpl), strconv.Quote(c01Clip(o.Out, 300)))
-	if !bt.verbatim {
+	if bt.open {
+		// string + trusted value: only the string operand (the filler) has a stated form
+	} else if !bt.verbatim {
 		switch {
 		case wrong["raw"] > 0:
 			v.problem = "string-unescaped"
@@ -796,7 +864,7 @@ func c01RandOps(r *Rng, kind string, d int) ([]string, string) {
 	ops := []string{}
 	for len(ops) < d {
 		op := Pick(r, c01Ops)
-		if op.need != "" && op.need != cls {
+		if op.need != "" && op.need != "*" && op.need != cls {
 			continue
 		}
 		ops = append(ops, op.name)
@@ -805,6 +873,14 @@ func c01RandOps(r *Rng, kind string, d int) ([]string, string) {
 			cls = "W"
 		case "raw":
 			cls = "H"
+		case "hcat":
+			cls = "W"
+		case "fzcat":
+			if cls == "S" {
+				cls = "G"
+			} else if cls != "G" {
+				cls = "U"
+			}
 		}
 	}
 	return ops, cls
@@ -817,8 +893,10 @@ func init() {
 			"typed and interface slices/maps, method, Go helper result, raw()) x ops(a chain of value-preserving plumbing steps: let, assignment, " +
 			"array/hash literal + index, user fn return/template body/2 params, Go helpers returning the value, struct boxes, for over literal/[]string/" +
 			"[]template.HTML/[]interface{}/map, if/else/else-if, fn frames, block helpers calling Block once/twice/BlockWith, contentFor/contentOf with and " +
-			"without data, contentOf block fallback, partial with data/layout/outer variable, string +, raw()) x emit(tag, twice, if-return, for-return, " +
-			"array, []interface{}, []string) x payload(marker + bytes over <>&'\" entities, multi-byte runes, invalid UTF-8, NUL, backslash, tag delimiters); " +
+			"without data, contentOf block fallback, partial with data/layout/outer variable, string + string, string + every other operand kind " +
+			"(template.HTML variable / raw() / Go func result / interface result / contentOf() / partial() / block helper result, HTMLer, user fn result, int, float, bool, array), " +
+			"trusted + string, string filler + routed value, raw()) x emit(tag, twice, if-return, for-return, " +
+			"array, []interface{}, []string, array + value, []string + string) x payload(marker + bytes over <>&'\" entities, multi-byte runes, invalid UTF-8, NUL, backslash, tag delimiters); " +
 			"every kind x source x chain of length <= 1 x emit form, in thorough also every chain of length 2 (one drawn emit form each), " +
 			"then random chains of depth 2..3 (quick) / 2..5 (thorough); a string filler and a trusted filler with their own markers travel next to the payload " +
 			"through arrays, loops and slices and are checked the same way; " +
@@ -827,7 +905,8 @@ func init() {
 		rep.Notes = append(rep.Notes,
 			"string payloads: every located emission must equal template.HTMLEscapeString(payload); the number of emissions of a string is not checked (dropping a string is not a C01 matter), it is only tagged (str-count-ok / str-count-differs)",
 			"trusted payloads (template.HTML, HTMLer, raw()): verbatim occurrences must equal the number of emissions the route performs",
-			"left open on purpose: string + template.HTML (the result is a new Go string), whole slices/maps of types compiler.write has no case for ([]template.HTML, maps), fmt.Stringer / named string types, time formats, contentType=javascript partials",
+			"string + trusted HTML: the string operand is a Go string and must come out escaped (payload on the left: cat* steps; string filler on the left of any routed value: fzcat); the form of the trusted right operand inside that result is left open and not checked",
+			"left open on purpose: whole slices/maps of types compiler.write has no case for ([]template.HTML, maps), fmt.Stringer / named string types, time formats, contentType=javascript partials",
 			"emit=twice after a user function that uses return is not generated: if the returned value ends the enclosing block (as plush's return object once did) the second tag legitimately never runs; that is C16's subject",
 			"render errors are tagged, not failures (C01 speaks about what an output tag emits); panics and hangs on these well-formed templates are reported",
 			"failing cases are shrunk (steps removed, source/emit/payload simplified) and the family id is the problem plus the shrunk route")
@@ -960,7 +1039,7 @@ func init() {
 			d := r.Range(2, maxD)
 			ops, cls := c01RandOps(r, kind, d)
 			em := Pick(r, c01Emits)
-			if em == "strs" && cls != "S" {
+			if (em == "strs" || em == "strsapp") && cls != "S" {
 				em = "tag"
 			}
 			c := c01Case{Kind: kind, Src: src, Ops: ops, Emit: em, Pay: c01Payload(r, c01NeedsLiteral(src))}
